@@ -317,7 +317,13 @@ def eval_history(case):
         before = json.dumps(text, sort_keys=True) if isinstance(text, dict) else str(text)
         out = _extract(text, opt)
         if isinstance(out, Raised):
+            # an exception is a result too: the same call must raise every time or never
             res.label("raised")
+            key = (i % len(texts), opt & 1, opt >> 1)
+            s = f"RAISED {out.type}"
+            if key in first and first[key] != s:
+                res.v("history-dependent", f"step {step}: extract(text #{key[0]}, ra={key[1]}) raises {out.type} but returned a result the first time")
+            first.setdefault(key, s)
             continue
         s = ser(out)
         any_cite = any_cite or bool(out)
